@@ -361,6 +361,13 @@ Definition foam_params_ok : bool :=
   (1 <=? fp_u16_per_digit P) &&
   (* what foamSIntReduce / eval_sint and the X handling rely on *)
   negb (t_SInt P =? t_BCall P) && negb (bv_SIntShiftUp P =? bv_SIntOr P) &&
-  negb (t_SInt P =? t_Prog P) && negb (t_BCall P =? t_Prog P).
+  negb (t_SInt P =? t_Prog P) && negb (t_BCall P =? t_Prog P) &&
+  (* foamTagFormat never looks at the X field: Prog is n-ary, outside the vector class and
+     not one of Rec/DEnv/DFluid, and its X is not the repeated letter *)
+  is_nary (t_Prog P) && (fp_index_start P <=? t_Prog P) &&
+  negb ((t_Prog P =? t_Rec P) || (t_Prog P =? t_DEnv P) || (t_Prog P =? t_DFluid P)) &&
+  (match info_of P (t_Prog P) with
+   | Some r => match r_letters r with [LX] => false | _ => true end
+   | None => false end).
 
 End WithParams.
